@@ -71,7 +71,7 @@ def absR (x : R) : R := if x < 0 then -x else x
 def latticeBin (lo hi : R) (n : Nat) : List R :=
   (List.range n).map fun (j : Nat) => lo + (((j : Nat) : R) + 1 / 2) * (1 * absR (hi - lo) / ((n : Nat) : R))
 
-inductive Err | index | zerodiv | type
+inductive Err | index | zerodiv | type | value | runtime
   deriving DecidableEq, Repr
 
 /-- ensemble.py l.74-78 `for i in range(self.nDim)`: `upper[i]`, `lower[i]`, `nbins[i]` (IndexError when one of the
@@ -123,6 +123,84 @@ def samplepts (lb ub : List R) (npts : Nat) (us : List (List R)) : Except Err (L
   | .error e => .error e
 
 end Num
+
+/-! ## `random_samples` with a user-supplied distribution (samples.py l.50-70) -/
+section DistSamples
+variable {R : Type} [LT R] [DecidableLT R]
+
+/-- numpy's clip kernel for floats (`_NPY_CLIP(x, lo, hi) = _NPY_MIN(_NPY_MAX(x, lo), hi)` with
+`MAX(a, b) = a > b ? a : b`, `MIN(a, b) = a < b ? a : b`: the BOUND is returned on a tie).  For a single coordinate
+numpy takes its constant-bounds fast path (`x < lo ? lo : x > hi ? hi : x`), which differs on a tie only in the SIGN
+of a zero (`-0.0` against a bound `0.0`): the harness compares zeros unsigned.  NaN draws are not modelled (numpy
+propagates them). -/
+def npMax (a b : R) : R := if b < a then a else b
+def npMin (a b : R) : R := if a < b then a else b
+def clipPt (x lo hi : R) : R := npMin (npMax x lo) hi
+
+/-- one entry of `bad = ((pts.T == lb) + (pts.T == ub)).T` (l.58, l.67): `==` through the order
+(`a == b` iff neither `a < b` nor `b < a`; IEEE equality for non-NaN floats, `-0.0 == 0.0`) -/
+def onBound (x lo hi : R) : Bool := decide ((¬ x < lo ∧ ¬ lo < x) ∨ (¬ x < hi ∧ ¬ hi < x))
+
+/-- one entry of `new = bad.sum(-1)` (l.59, l.68): how many entries of coordinate row `i` sit on a bound -/
+def countBad (lo hi : R) : List R → Nat
+  | [] => 0
+  | x :: xs => (if onBound x lo hi = true then 1 else 0) + countBad lo hi xs
+
+/-- l.65 `pts[i][bad[i]] = dist[i](inew)`: the `k`-th flagged entry of the row receives the `k`-th drawn value
+(`bad[i]` was computed from the very entries of `pts[i]`, which have not changed since) -/
+def fillRow (vals : Nat → R) (lo hi : R) : Nat → List R → List R
+  | _, [] => []
+  | k, x :: xs =>
+    if onBound x lo hi = true then vals k :: fillRow vals lo hi (k + 1) xs else x :: fillRow vals lo hi k xs
+
+/-- `np.clip(pts.T, lb, ub).T` (l.56, l.66) on the `dim x npts` matrix: row `i` against `lb[i]`, `ub[i]` -/
+def clipRows : List R → List R → List (List R) → List (List R)
+  | l :: lb, u :: ub, row :: rows => row.map (fun x => clipPt x l u) :: clipRows lb ub rows
+  | _, _, _ => []
+
+/-- l.64-65 `for i,inew in enumerate(new): if inew: pts[i][bad[i]] = dist[i](inew)`.  `draw c k` is the `k`-th value
+returned by the `c`-th call of a distribution after the initial draw (the oracle: ANY values); `c` counts the calls.
+Returns `(calls so far, rows)`. -/
+def redrawRows (draw : Nat → Nat → R) : Nat → List R → List R → List (List R) → Nat × List (List R)
+  | c, l :: lb, u :: ub, row :: rows =>
+    if countBad l u row = 0 then
+      ((redrawRows draw c lb ub rows).1, row :: (redrawRows draw c lb ub rows).2)
+    else
+      ((redrawRows draw (c + 1) lb ub rows).1, fillRow (draw c) l u 0 row :: (redrawRows draw (c + 1) lb ub rows).2)
+  | c, _, _, _ => (c, [])
+
+/-- `any(new)` (l.61) -/
+def anyBad : List R → List R → List (List R) → Bool
+  | l :: lb, u :: ub, row :: rows => decide (countBad l u row ≠ 0) || anyBad lb ub rows
+  | _, _, _ => false
+
+/-- l.60-69 `_n, n = 1, 1000; while any(new): if _n == n: raise RuntimeError; <redraw>; <clip>; <bad, new>; _n += 1`:
+`fuel = n - _n` redraw rounds are still allowed.  Returns `(number of redraw calls, rows)`. -/
+def resampleLoop (draw : Nat → Nat → R) (lb ub : List R) : Nat → Nat → List (List R) → Except Err (Nat × List (List R))
+  | 0, c, rows => if anyBad lb ub rows = true then .error .runtime else .ok (c, rows)
+  | fuel + 1, c, rows =>
+    if anyBad lb ub rows = true then
+      resampleLoop draw lb ub fuel (redrawRows draw c lb ub rows).1 (clipRows lb ub (redrawRows draw c lb ub rows).2)
+    else .ok (c, rows)
+
+/-- `random_samples(lb, ub, npts, dist, clip)` for `dist is not None` (l.50-70).  `init` is the initial draw as a
+`dim x npts` matrix (row `i` = coordinate `i`: `dist((npts, dim)).T`, resp. `[di(npts) for di in dist]`), `draw` the
+later redraws, `n = 1000` the hard-wired number of tries.  Only the well-shaped case `len(lb) = len(ub) = dim` is
+modelled (numpy would broadcast bound lists of length 1; any other mismatch is a ValueError). -/
+def randomSamplesDist (draw : Nat → Nat → R) (lb ub : List R) (init : List (List R)) (clip : Bool) (n : Nat) :
+    Except Err (Nat × List (List R)) :=
+  if init.length ≠ lb.length ∨ ub.length ≠ lb.length then .error .value
+  else if clip = true then .ok (0, clipRows lb ub init)
+  else resampleLoop draw lb ub (n - 1) 0 (clipRows lb ub init)
+
+/-- `samplepts(lb, ub, npts, dist)` (grid.py l.42-58) with a distribution: `random_samples(...).T.tolist()` -/
+def sampleptsDist (draw : Nat → Nat → R) (lb ub : List R) (npts : Nat) (init : List (List R)) (n : Nat) :
+    Except Err (Nat × List (List R)) :=
+  match randomSamplesDist draw lb ub init false n with
+  | .ok r => .ok (r.1, (List.range npts).map fun j => r.2.filterMap (·[j]?))
+  | .error e => .error e
+
+end DistSamples
 
 /-! ## `randomly_bin` -/
 section Bins
@@ -296,5 +374,50 @@ def initSlots {C : Type} (cfg : Cfg C) (at_ : Nat) : Nat → List (Option (Slot 
   | i, some s :: rest => s :: initSlots cfg at_ (i + 1) rest
 
 end Book
+
+/-! ## member creation with object identity: the nested solver is a TEMPLATE -/
+section Template
+variable {S : Type}
+
+/-- an object store: `get a` is the state of the object at address `a`, addresses `< next` are allocated -/
+structure Store (S : Type) where
+  get : Nat → S
+  next : Nat
+
+/-- a new object (what `copy.deepcopy` returns): the next free address -/
+def Store.alloc (h : Store S) (s : S) : Store S :=
+  ⟨fun a => if a = h.next then s else h.get a, h.next + 1⟩
+
+/-- in-place mutation of the object at address `a` -/
+def Store.modify (h : Store S) (a : Nat) (f : S → S) : Store S :=
+  ⟨fun b => if b = a then f (h.get a) else h.get b, h.next⟩
+
+/-- `__init_allSolvers` (abstract_ensemble_solver.py l.413-424) with object identity.  `t` is the address of what
+`__get_solver_instance` returns - for `SetNestedSolver(<instance>)` the USER'S OWN object (l.207-208).
+`for i,op in enumerate(self._allSolvers): if op is None: op = _copy(solver); op.id = i + at; self._allSolvers[i] = op`:
+every empty slot receives a NEW object whose state is the template's (with the id set ON THE COPY); occupied slots are
+kept.  Returns the store and the addresses in `_allSolvers`. -/
+def initMembers (setId : S → Nat → S) (t at_ : Nat) : Nat → Store S → List (Option Nat) → Store S × List Nat
+  | _, h, [] => (h, [])
+  | i, h, none :: rest =>
+    ((initMembers setId t at_ (i + 1) (h.alloc (setId (h.get t) (i + at_))) rest).1,
+     h.next :: (initMembers setId t at_ (i + 1) (h.alloc (setId (h.get t) (i + at_))) rest).2)
+  | i, h, some a :: rest =>
+    ((initMembers setId t at_ (i + 1) h rest).1, a :: (initMembers setId t at_ (i + 1) h rest).2)
+
+/-- the map over the members (`_solve` / `_step`, l.692-716 / l.769-795): member number `i` (the object at address
+`a`) is advanced in place by `run i` - whatever the nested solver does from starting point `i` (C01-C05; an oracle
+here).  `i0` = number of the first listed member. -/
+def runMembers (run : Nat → S → S) : Nat → Store S → List Nat → Store S
+  | _, h, [] => h
+  | i, h, a :: as => runMembers run (i + 1) (h.modify a (run i)) as
+
+/-- a first `Solve`/`Step` of a NEW ensemble of `n` members (all slots empty) built on the template at `t` -/
+def solveNew (setId : S → Nat → S) (run : Nat → S → S) (t at_ n : Nat) (h : Store S) : Store S × List Nat :=
+  (runMembers run 0 (initMembers setId t at_ 0 h (List.replicate n none)).1
+      (initMembers setId t at_ 0 h (List.replicate n none)).2,
+   (initMembers setId t at_ 0 h (List.replicate n none)).2)
+
+end Template
 
 end MysticVerif.Ens
